@@ -264,7 +264,7 @@ impl<'a> DM<'a> {
         let r = catch(|| a.decompose());
         let body = match r {
             Ok((s, dd, h, m, sec, ms, us, ns)) => format!(
-                "\"res\":[{},{},{},{},{},{},{},{}]",
+                "\"res\":{{\"v\":[{},{},{},{},{},{},{},{}]}}",
                 s,
                 limbs(dd as u128),
                 limbs(h as u128),
@@ -311,7 +311,7 @@ pub fn sort_event(rec: &mut Rec, xs: &[Duration]) {
     let body = match r {
         Ok(ys) => {
             let yo: Vec<String> = ys.iter().map(|d| jdur(*d)).collect();
-            format!("\"xs\":[{}],\"res\":[{}]", xin.join(","), yo.join(","))
+            format!("\"xs\":[{}],\"res\":{{\"v\":[{}]}}", xin.join(","), yo.join(","))
         }
         Err(m) => format!("\"xs\":[{}],\"res\":{}", xin.join(","), jpanic(&m)),
     };
